@@ -32,9 +32,10 @@ DRAIN_IN_WAIT = 'TRUE'
 def scenarios(tier):
     S = []
 
-    def add(target, where, args=(), kwargs=None, kinds=('thread', 'process', 'remote'), factory='ctor', run='none', target_none=False, vclass='small'):
+    def add(target, where, args=(), kwargs=None, kinds=('thread', 'process', 'remote'), factory='ctor', run='none', target_none=False, vclass='small',
+            waitmode='once'):
         S.append({'id': 's%d' % len(S), 'target': target, 'where': where, 'args': list(args), 'kwargs': kwargs or {}, 'kinds': list(kinds),
-                  'factory': factory, 'run': run, 'target_none': target_none, 'vclass': vclass})
+                  'factory': factory, 'run': run, 'target_none': target_none, 'vclass': vclass, 'waitmode': waitmode})
     small = ['none', 'zero', 'false', 'empty_str', 'empty_list', 'empty_dict', 'float', 'int', 'str', 'tuple', 'nested', 'point', 'points', 'datetime', 'decimal']
     sizes = ['b0', 'b1', 'b4k', 'b64k-1', 'b64k', 'b64k+1', 'b256k', 'b1m'] + (['b4m'] if tier == 'thorough' else [])
     for v in small:
@@ -51,6 +52,11 @@ def scenarios(tier):
     for args, kw in (((), {}), ((1, 'a', None), {}), ((), {'k': 1, 'z': [1, 2]}), (([1, (2,)], 0), {'kw': {'x': None}})):
         add('mod_echo', 'module', args, kw)
         add('main_echo', 'main', args, kw)
+    # outcomes that take a while to arrive / to be rebuilt in the parent, awaited in short slices: wait(0.25) until True
+    add('mod_value', 'module', ('slowreb',), waitmode='sliced')
+    add('mod_raise', 'module', ('slowreb_err',), waitmode='sliced')
+    add('mod_value', 'module', ('b1m',), waitmode='sliced', vclass='big')
+    add('mod_slow', 'module', (3, 1), waitmode='sliced')
     # long-running calls (one kind each, they run in separate shards)
     for k in ('remote', 'process', 'thread'):
         add('mod_slow', 'module', (7, 12 if k == 'remote' else 3), kinds=(k,))
